@@ -20,16 +20,20 @@ pub struct Skin {
   /// C: statements inside `void f() {`, and a line of statements that no rule matches is written as a preprocessor
   /// directive (`#define N 0`) - a node that contains its own line break and so reaches onto the next line
   pub c: bool,
+  /// Rust: statements inside `fn f() {`; the grammar calls its comments `line_comment` / `block_comment`
+  pub rust: bool,
 }
 
-pub const SKINS: [Skin; 7] = [
-  Skin { id: 0, python: false, block: false, wrap: false, crlf: false, idfmt: 0, c: false },
-  Skin { id: 1, python: false, block: true, wrap: false, crlf: false, idfmt: 1, c: false },
-  Skin { id: 2, python: false, block: false, wrap: true, crlf: false, idfmt: 2, c: false },
-  Skin { id: 3, python: false, block: false, wrap: false, crlf: true, idfmt: 0, c: false },
-  Skin { id: 4, python: true, block: false, wrap: false, crlf: false, idfmt: 1, c: false },
-  Skin { id: 5, python: false, block: true, wrap: true, crlf: true, idfmt: 2, c: false },
-  Skin { id: 6, python: false, block: false, wrap: true, crlf: false, idfmt: 0, c: true },
+pub const SKINS: [Skin; 9] = [
+  Skin { id: 0, python: false, block: false, wrap: false, crlf: false, idfmt: 0, c: false, rust: false },
+  Skin { id: 1, python: false, block: true, wrap: false, crlf: false, idfmt: 1, c: false, rust: false },
+  Skin { id: 2, python: false, block: false, wrap: true, crlf: false, idfmt: 2, c: false, rust: false },
+  Skin { id: 3, python: false, block: false, wrap: false, crlf: true, idfmt: 0, c: false, rust: false },
+  Skin { id: 4, python: true, block: false, wrap: false, crlf: false, idfmt: 1, c: false, rust: false },
+  Skin { id: 5, python: false, block: true, wrap: true, crlf: true, idfmt: 2, c: false, rust: false },
+  Skin { id: 6, python: false, block: false, wrap: true, crlf: false, idfmt: 0, c: true, rust: false },
+  Skin { id: 7, python: false, block: false, wrap: true, crlf: false, idfmt: 0, c: false, rust: true },
+  Skin { id: 8, python: false, block: true, wrap: true, crlf: false, idfmt: 1, c: false, rust: true },
 ];
 
 fn ids_text(ids: &Value, skin: &Skin) -> Option<String> {
@@ -64,7 +68,7 @@ pub fn render(layout: &Value, skin: &Skin) -> (String, usize) {
   let mut out = String::new();
   let ind = if skin.wrap { "  " } else { "" };
   if skin.wrap {
-    out.push_str(if skin.c { "void f() {\n" } else { "function f() {\n" });
+    out.push_str(if skin.c { "void f() {\n" } else if skin.rust { "fn f() {\n" } else { "function f() {\n" });
   }
   for line in layout.as_array().unwrap() {
     out.push_str(ind);
@@ -150,7 +154,7 @@ pub fn drive(vectors: &str, out: &str, thorough: bool) {
     let yaml = rules_json(lang).iter().map(|r| serde_json::to_string(r).unwrap()).collect::<Vec<_>>().join("\n---\n");
     from_yaml_string::<SupportLang>(&yaml, &globals).expect("rules load")
   };
-  let (cfgs_js, cfgs_py, cfgs_c) = (mk("JavaScript"), mk("Python"), mk("C"));
+  let (cfgs_js, cfgs_py, cfgs_c, cfgs_rs) = (mk("JavaScript"), mk("Python"), mk("C"), mk("Rust"));
   let scratch = format!("/var/tmp/agv-c14-{}", std::process::id());
   // CLI runs are the expensive part: every layout in thorough, a stride in quick
   let stride = (layouts.len() / if thorough { 6000 } else { 400 }).max(1);
@@ -162,12 +166,12 @@ pub fn drive(vectors: &str, out: &str, thorough: bool) {
   let results = cli::par_map(chunk, 12, |k, layout| {
     let i = base + k;
     // every layout in its plain form and in one more skin, in turn
-    let skins: Vec<Skin> = if i % 7 == 0 { vec![SKINS[0]] } else { vec![SKINS[0], SKINS[i % 7]] };
+    let skins: Vec<Skin> = if i % 9 == 0 { vec![SKINS[0]] } else { vec![SKINS[0], SKINS[i % 9]] };
     let mut recs = vec![];
     for skin in &skins {
       let (src, off) = render(layout, skin);
-      let lang = if skin.python { SupportLang::Python } else if skin.c { SupportLang::C } else { SupportLang::JavaScript };
-      let cfgs = if skin.python { &cfgs_py } else if skin.c { &cfgs_c } else { &cfgs_js };
+      let lang = if skin.python { SupportLang::Python } else if skin.c { SupportLang::C } else if skin.rust { SupportLang::Rust } else { SupportLang::JavaScript };
+      let cfgs = if skin.python { &cfgs_py } else if skin.c { &cfgs_c } else if skin.rust { &cfgs_rs } else { &cfgs_js };
       let unused_cfg = CombinedScan::unused_config(Severity::Hint, lang);
       let g = lang.ast_grep(&src);
       for separate_fix in [false, true] {
@@ -197,16 +201,16 @@ pub fn drive(vectors: &str, out: &str, thorough: bool) {
         // in every other project the rules are confined to src/: the file outside then has no applicable rule at all,
         // and its only comment - a suppression that silences nothing - must still be reported as unused
         let confined = (i / stride.max(1)) % 2 == 1;
-        for mut r in rules_json(if skin.python { "Python" } else if skin.c { "C" } else { "JavaScript" }) {
+        for mut r in rules_json(if skin.python { "Python" } else if skin.c { "C" } else if skin.rust { "Rust" } else { "JavaScript" }) {
           if confined {
             r["files"] = json!(["src/**"]);
           }
           p.rule(&format!("{}.yml", r["id"].as_str().unwrap()), &r);
         }
-        let ext = if skin.python { "py" } else if skin.c { "c" } else { "js" };
-        let outside = if skin.python { "# ast-grep-ignore\nn(0)\n" } else if skin.c { "void g() {\n  // ast-grep-ignore\n  n(0);\n}\n" } else { "// ast-grep-ignore\nn(0);\n" };
+        let ext = if skin.python { "py" } else if skin.c { "c" } else if skin.rust { "rs" } else { "js" };
+        let outside = if skin.python { "# ast-grep-ignore\nn(0)\n" } else if skin.c { "void g() {\n  // ast-grep-ignore\n  n(0);\n}\n" } else if skin.rust { "fn g() {\n  // ast-grep-ignore\n  n(0);\n}\n" } else { "// ast-grep-ignore\nn(0);\n" };
         p.write(&format!("scripts/x.{ext}"), outside.as_bytes());
-        p.write(if skin.python { "src/t.py" } else if skin.c { "src/t.c" } else { "src/t.js" }, src.as_bytes());
+        p.write(if skin.python { "src/t.py" } else if skin.c { "src/t.c" } else if skin.rust { "src/t.rs" } else { "src/t.js" }, src.as_bytes());
         let o = run_sgv(&["scan", "--json=stream"], &p.root, None, 20, &[]);
         let outside_reports: Vec<Value> = json_lines(&o.stdout).iter().filter(|v| v["file"].as_str().unwrap_or("").contains("scripts/x."))
           .map(|v| json!([v["ruleId"], v["range"]["start"]["line"]])).collect();
@@ -220,7 +224,7 @@ pub fn drive(vectors: &str, out: &str, thorough: bool) {
           .collect();
         let (findings, unused) = classify(&src, &hits, off);
         recs.push(json!({"id": format!("c14v{i}s{}", skin.id), "front": "cli", "layout": layout, "src": src, "skin": skin.id, "findings": findings, "unused": unused, "code": o.code,
-          "outside": {"checked": true, "reports": outside_reports, "line": if skin.c { 1 } else { 0 }, "confined": confined}}));
+          "outside": {"checked": true, "reports": outside_reports, "line": if skin.c || skin.rust { 1 } else { 0 }, "confined": confined}}));
         p.remove();
       }
     }
